@@ -43,6 +43,35 @@ fn numeric_json(n: &anything::Numeric, full: bool) -> Value {
 
         match shown {
             Ok((d, dp, v12, hn)) => {
+                // The displayed unit read back by the tool's own unit parser (superscripts and the product dot translated to the
+                // input syntax): whatever the display format is, it has to denote the unit that was computed. Null = not readable.
+                let mut ascii = String::new();
+                let mut in_sup = false;
+                for c in d.chars() {
+                    let m = match c {
+                        '⁰' => Some('0'), '¹' => Some('1'), '²' => Some('2'), '³' => Some('3'), '⁴' => Some('4'),
+                        '⁵' => Some('5'), '⁶' => Some('6'), '⁷' => Some('7'), '⁸' => Some('8'), '⁹' => Some('9'), '⁻' => Some('-'),
+                        _ => None,
+                    };
+                    match m {
+                        Some(x) => {
+                            if !in_sup {
+                                ascii.push('^');
+                                in_sup = true;
+                            }
+                            ascii.push(x);
+                        }
+                        None => {
+                            in_sup = false;
+                            ascii.push(if c == '⋅' { '*' } else { c });
+                        }
+                    }
+                }
+                let text = if ascii.starts_with('/') { format!("1{ascii}") } else { ascii.clone() };
+                v["disp_reparsed"] = match catch_unwind(|| text.parse::<Compound>()) {
+                    Ok(Ok(c)) if !text.is_empty() => unit_json(&c),
+                    _ => Value::Null,
+                };
                 v["disp"] = json!(d);
                 v["disp_pl"] = json!(dp);
                 v["v12"] = json!(v12);
@@ -166,6 +195,72 @@ fn op_query(st: &mut State, req: &Value) -> Value {
     out["events"] = take_events();
     out["us"] = json!(started.elapsed().as_micros() as u64);
     out
+}
+
+/// Several queries whose result iterators are alive at the same time on this thread and are stepped in turn: query k+1 is created
+/// after query k has yielded its first result. Each query must yield what it yields on its own (C18; seed C10-i: per-thread state
+/// that a new query resets under the feet of one that is still running).
+fn op_interleave(st: &mut State, req: &Value) -> Value {
+    let qs = strs(&req["qs"]);
+    let db = match need_db(st) {
+        Ok(db) => db,
+        Err(e) => return json!({"harness_error": e}),
+    };
+    let r = catch_unwind(AssertUnwindSafe(|| {
+        let parsed: Vec<_> = qs.iter().map(|q| anything::parse(q)).collect();
+        if parsed.iter().any(|p| p.is_err()) {
+            return json!({"parse_err": true});
+        }
+        let parsed: Vec<_> = parsed.into_iter().map(|p| p.unwrap()).collect();
+        let mut descs: Vec<Vec<anything::Description>> = qs.iter().map(|_| Vec::new()).collect();
+        let mut out: Vec<Vec<Value>> = qs.iter().map(|_| Vec::new()).collect();
+        let mut iters = Vec::new();
+        let mut done = vec![false; qs.len()];
+        let mut dit = descs.iter_mut();
+        let mut next_to_create = 0usize;
+        let mut rounds = 0usize;
+        loop {
+            if next_to_create < qs.len() {
+                let dslot = dit.next().unwrap();
+                iters.push(anything::query(&parsed[next_to_create], db, anything::Options::default(), dslot));
+                next_to_create += 1;
+            }
+            let mut progressed = false;
+            // (the round in which a query was created steps the newest one first, the following rounds the oldest first: both orders
+            // of "the other query ran in between" occur)
+            let created_now = next_to_create <= qs.len() && iters.len() == next_to_create && rounds < qs.len();
+            rounds += 1;
+            let mut order: Vec<usize> = (0..iters.len()).collect();
+            if created_now {
+                order.reverse();
+            }
+            for i in order {
+                let it = &mut iters[i];
+                if done[i] {
+                    continue;
+                }
+                match it.next() {
+                    Some(Ok(n)) => {
+                        out[i].push(json!({"ok": numeric_json(&n, false)}));
+                        progressed = true;
+                    }
+                    Some(Err(e)) => {
+                        out[i].push(json!({"err": {"msg": e.to_string()}}));
+                        progressed = true;
+                    }
+                    None => done[i] = true,
+                }
+            }
+            if !progressed && next_to_create >= qs.len() {
+                break;
+            }
+        }
+        json!({"results": out})
+    }));
+    match r {
+        Ok(v) => v,
+        Err(p) => json!({"panic": vharness::panic_message(&p), "panic_loc": vharness::last_panic_location()}),
+    }
 }
 
 fn op_rational(req: &Value) -> Value {
@@ -1004,6 +1099,7 @@ fn handle(st: &mut State, req: &Value) -> Value {
     match req["op"].as_str().unwrap_or("") {
         "ping" => json!({"pong": true, "debug_assertions": cfg!(debug_assertions)}),
         "query" => op_query(st, req),
+        "interleave" => op_interleave(st, req),
         "rational" => op_rational(req),
         "display" => op_display(req),
         "compound" => op_compound(req),
